@@ -120,6 +120,31 @@ def perm_scenario(rng, sid, i, base):
     return s
 
 
+def symlink_scenario(rng, sid, i, base):
+    """threads under econf_followSymlinks(false) (set once before they start): the even ones read a layered tree of their own
+    in which a drop-in is switched off by a link to /dev/null, the odd ones read a file of their own through a symbolic link
+    (always refused) and directly (always read)"""
+    pre = base + b"/t%d" % i
+    s = Scenario(sid, {"thread": i, "nosymlink": True})
+    if i % 2 == 0:
+        s.file(pre + b"/usr/etc/cfg.conf", b"k=%d\n" % i)
+        s.file(pre + b"/usr/etc/cfg.conf.d/10-a.conf", b"a=1\n")
+        s.link(pre + b"/etc/cfg.conf.d/10-a.conf", b"/dev/null")
+        s.file(pre + b"/etc/cfg.conf.d/20-b.conf", b"b=2\n")
+        for r in range(rng.randint(40, 90)):
+            s.add("RD", 0, h(pre + b"/usr/etc"), h(pre + b"/etc"), h(b"cfg"), h(b"conf"), h(b"="), h(b"#"))
+            s.add("FREE", 0)
+    else:
+        s.file(pre + b"/real.conf", b"secret=%d\n" % i)
+        s.link(pre + b"/link.conf", pre + b"/real.conf")
+        for r in range(rng.randint(150, 300)):
+            s.add("RF", 0, h(pre + (b"/link.conf" if r % 4 else b"/real.conf")), h(b"="), h(b"#"))
+            if r % 16 == 0:
+                s.add("GET", 0, "str", "-", h(b"secret"))
+            s.add("FREE", 0)
+    return s
+
+
 def build_locale():
     """a tiny locale whose decimal point is ',' (none is installed): -> (LOCPATH, name) or None"""
     d = os.path.join(build.BUILD, "locale")
@@ -220,6 +245,15 @@ def direct_checks(res, harness, tier, rng):
         pro.add("G", "perms", "004", "001")
         grp.insert(0, pro)
         fgroups.append(grp)
+    # groups under econf_followSymlinks(false): some threads meet a /dev/null link in a drop-in directory, the others read through links
+    nperm_end = len(fgroups)
+    for g in range(10 if tier == "quick" else 150):
+        nt = rng.choice([4, 8, 8, 16])
+        grp = [symlink_scenario(rng, "y%dt%d" % (g, i), i, ("%s/y%d" % (tmp, g)).encode()) for i in range(nt)]
+        pro = Scenario("prologue_y%d" % g, {"prologue": True})
+        pro.add("G", "nosymlink", "1")
+        grp.insert(0, pro)
+        fgroups.append(grp)
     supp = os.path.join(build.BUILD, "tsan.supp")
     with open(supp, "w") as f:
         for a in ALLOWED:
@@ -285,7 +319,8 @@ def direct_checks(res, harness, tier, rng):
         alone = list(ex.map(run_alone, fgroups))
     for gi, (grp, (out, err, rc), solo) in enumerate(zip(fgroups, conc, alone)):
         isperm = gi >= nfloat
-        label = "perm_threads_%d" if isperm else "float_threads_%d"
+        issym = gi >= nperm_end
+        label = "nosymlink_threads_%d" if issym else "perm_threads_%d" if isperm else "float_threads_%d"
         res.hist[label % (len(grp) - 1)] = res.hist.get(label % (len(grp) - 1), 0) + 1
         if not isperm and out.get(grp[0].id, ([""], ""))[0][:1] != ["locale set ,"]:
             res.notes.append("the test locale could not be activated: %r" % (out.get(grp[0].id),))
@@ -305,10 +340,11 @@ def direct_checks(res, harness, tier, rng):
                 res.nontrivial.add(tuple(sc.lines))
             if (il != al or ist != "ok") and len(res.violations) < 3:
                 fd = scn.first_diff(il, al)
-                what = ("with econf_requirePermissions in force and private directories of different modes" if isperm
+                what = ("with econf_followSymlinks(false) in force, links to /dev/null in some threads' drop-in directories" if issym
+                        else "with econf_requirePermissions in force and private directories of different modes" if isperm
                         else "under a numeric locale with a decimal comma")
-                p = common.write_replay(res, "%s%d" % ("perm" if isperm else "float", len(res.violations) + 1), sc,
+                p = common.write_replay(res, "%s%d" % ("nosym" if issym else "perm" if isperm else "float", len(res.violations) + 1), sc,
                                         "%s a thread's results differ from the results of the same "
                                         "calls run alone: first difference %s (concurrent, alone); %d threads in the group" % (what, fd, len(grp) - 1), il, al)
-                res.violations.append((p, "thread output differs from its run alone (%s)" % ("permission requirement" if isperm else "floating values, decimal-comma locale"), False))
+                res.violations.append((p, "thread output differs from its run alone (%s)" % ("symbolic links refused" if issym else "permission requirement" if isperm else "floating values, decimal-comma locale"), False))
     res.notes.append("%d thread groups, %d ThreadSanitizer reports (after suppressing the documented error-location record)" % (len(groups), races))
